@@ -426,8 +426,11 @@ func (r *runner) runHistory(h *History, emit bool) []stepOut {
 		} else {
 			r.c.Count("refused:" + mclass(o.M))
 			if pmsg != "" {
+				// a panic in a native call kills the node (nothing on the execution path recovers)
 				r.c.Count("panic:" + o.M)
-				r.c.Note("panic in " + o.M + ": " + pmsg)
+				hh := History{Tag: h.Tag, Ops: h.Ops[:n+1]}
+				r.c.Fail("panic:"+o.M, "a native call returns (TRUE or an error); it never panics",
+					map[string]interface{}{"history": hh, "failing_step": n, "method": o.M, "args_hex": fmt.Sprintf("%x", e.args)}, pmsg, "an error")
 			}
 		}
 		r.oracle(h, n, o, e, pre, post, ok)
@@ -522,13 +525,18 @@ func lifecycleHistory() *History {
 	}}
 }
 
-// panicHistory: removeKeyByController with key index 0, sent by the rightful controller.
+// panicHistory: removeKeyByController / removeKeyByRecovery with key index 0, sent by the rightful
+// controller / recovery.  Before repair 2977caad revokePkByIndex let index 0 through, wrapped it
+// to 2^32-1 and panicked on the slice index (regression probe; also kept in corpus/C45).
 func panicHistory() *History {
 	one := uint64(1)
 	return &History{Tag: "probe:revoke-by-index-0", Ops: []Op{
 		{M: "regIDWithPublicKey", ID: 0, Key: keyBlob(0), Sig: []int{0}},
 		{M: "regIDWithController", ID: 1, CtrlID: ip(0), Proof: &Proof{Index: &one}, Sig: []int{0}},
 		{M: "removeKeyByController", ID: 1, KIdx: 0, Proof: &Proof{Index: &one}, Sig: []int{0}},
+		{M: "removeKeyByController", ID: 1, KIdx: 1 << 32, Proof: &Proof{Index: &one}, Sig: []int{0}},
+		{M: "setRecovery", ID: 0, Group: &Grp{Members: []Mem{{ID: ip(0)}}, Threshold: 1}, Idx: 1, Sig: []int{0}},
+		{M: "removeKeyByRecovery", ID: 0, KIdx: 0, Signers: []Sg{{0, 1}}, Sig: []int{0}},
 	}}
 }
 
